@@ -1,6 +1,7 @@
 SPECIFICATION Spec
 CONSTANTS Weights = {50, 100}
  MaxSigners = 2
+ ExtraCfgs <- McNone
  MaxSigs = 2
  TamperFields = {"amount"}
  PayCfgs <- McPlainOnly
@@ -10,7 +11,7 @@ CONSTANTS Weights = {50, 100}
  Kinds = {}
  ReconfCfgs <- McNegCfgs
  NewCfgs <- McNegNew
- Slices = {"sigs", "tamper", "payer", "box", "reconf"}
+ Slices = {"sigs", "tamper", "payer", "junk", "box", "reconf"}
  Dev = {"Dev_MultisigCountsRepeatedSigner"}
 VIEW View
 PROPERTIES EffectOnlyIfAuthorized CanonicalAccepted RepeatNeverHelps ForeignNeverHelps RemovalNeverHelps EncodingIrrelevant TamperFalsifies PayerBinds ThresholdExact Reconf
